@@ -48,7 +48,8 @@ def run_case(case, ctx):
     m0 = AM.resolve(a)
     cell = np.array(a.cell, float)
     try:
-        r = a.replicate(dims)
+        r = a.replicate([dims, list(dims), np.array(dims)][case["s"] % 3])
+        st.seen("factor_container", ["tuple", "list", "ndarray"][case["s"] % 3])
     except Exception as e:
         if type(e).__name__ == "PostBroken":
             raise
